@@ -30,13 +30,13 @@ def _esc(text, specials, style):
     text when possible; 2: double-quote the whole text when possible."""
     if style in (1, 2):
         q = "'" if style == 1 else '"'
-        if text and not any(c in text for c in "\\[]()'\""):
-            return q + text + q
+        if text and not any(c in text for c in "\\[]'\""):
+            return q + text + q      # parentheses are literal inside quotes
     if style in (3, 4):
         # demarcated, with embedded quotes and backslashes escaped (README:
         # "embedded, single ' and " must be escaped")
         q = "'" if style == 3 else '"'
-        if text and not any(c in text for c in "[]()"):
+        if text and not any(c in text for c in "[]"):
             return q + "".join("\\" + c if c in "'\"\\" else c
                                for c in text) + q
     return "".join("\\" + c if c in specials else c for c in text)
